@@ -10,8 +10,8 @@ func init() {
 	register("C02", "Decides structural necessary conditions of the update laws (put-get, get-put, put-put, frame): (U1) UpdateFrom/UpdateAttributesFrom store nothing of the assigned value into the target except scalars, fresh deep copies and the Alias pointer, and UpdateFrom replaces Kind, Content and Value on every path except self-assignment; (U2) their write footprint is the receiver itself, and everything the ASSIGN / ASSIGN_ATTRIBUTES handlers write goes through them on a match or is auto-creation guarded by !DontAutoCreate; (U3 = R1) every operand that is evaluated read-only on the pinned tree — the RHS of plain `=`, index expressions, operands of arithmetic etc. — still is, so reading the new value cannot create paths; (U4) `p op= e` applies the operator to a Copy() of the match, not to the node it overwrites. (U9) whether traverseMap creates a missing entry is not control-dependent on the text of the key. Does NOT decide the laws as value equalities, padding of sequences, multi-match order, nor |= first-result semantics.", runC02)
 	register("C07", "Decides structural necessary conditions of 'an update leaves the presentation of everything it did not touch intact': (P1) the mutation footprint of the assignment primitives is confined to the addressed node (= C02 U1/U2) and that of delete to the parent's child list and index keys (= C03 D1); (P2) inside UpdateAttributesFrom each comment store is control-dependent on the assigned value having that comment, the style store on the target having none, the anchor store on !DontOverWriteAnchor, and the tag store is conditional; (P3) a copy carries every CandidateNode field (doCopy's literal initialises all fields; an uncopied field must be in the empty exclusion table) and shares nothing but Parent/Alias; (P4) the yaml.Node <-> CandidateNode conversion reads and writes the same attribute set in both directions (= C05 Y1); (R1) operands evaluated read-only on the pinned tree stay read-only (an index expression or operand must not auto-create keys outside the target). (P9) `as $v` binds a Copy() of every matched node whatever the node is. Does NOT decide what the emitter prints for unchanged attributes, header/separator retention, nor sibling order after key creation.", runC07)
 	register("C03", "Decides structural necessary conditions of 'del removes exactly the selection': (D1) deleteFromMap/deleteFromArray write only the parent's Content and, for sequences, the index key of surviving children; everything deleteChildOperator writes goes through them; (D2 = R1) the selection is evaluated read-only; (D3) the victim is located by equality on the recorded key — no glob/pattern matcher reachable, both sides of the comparison in the same representation — and (K1, shared with C16) the invariant 'a node in position i of a sequence has Key = i' is established wherever a node enters a sequence. Does NOT decide equality of the remaining document nor del(s1,s2) commutation.", runC03)
-	register("C04", "Decides structural necessary conditions of 'x * y computes the merge and never changes x or y': (M1 = X1 for MULTIPLY, engine E1) from the handler of MULTIPLY through the crossFunction callback, mergeObjects and applyAssignment no store reaches a node of the operands: every in-place assignment issued by the merge targets the fresh copy of the left operand; DeeplyAssign (decoders) likewise builds on a fresh root; (M2 = X2) the writable context created for the merge never evaluates a user sub-expression; (M3 = U1) the assignment primitive deep-copies, so the result shares no node with the right operand; (M5) the merge preferences always carry DontFollowAlias, so traversal of the copy never follows a merge key / alias into the anchored map of an operand. Does NOT decide the merge value itself, flag combinations, nor the fold law.", runC04)
-	register("C16", "Decides structural necessary conditions of 'path, key and parent describe where a node is': (K1) AddChild gives every child Parent and a position key — finding: a child that already has a key keeps its old index (known); direct stores into a Content slot store positioned nodes (CopyAsReplacement / CreateReplacement results, permutations of existing children, or re-keyed in place); (K2) AddKeyValueChild re-keys and re-parents unconditionally, CopyAsReplacement takes Parent and Key from the node it replaces, and Copy shares nothing but Parent/Alias with the original (so re-keying one never rewrites the other); (K3) key / path / parent are computed from the recorded Key, Parent, IsMapKey only. Does NOT decide traverse(path(n)) == n as a value fact.", runC16)
+	register("C04", "Decides structural necessary conditions of 'x * y computes the merge and never changes x or y': (M1 = X1 for MULTIPLY, engine E1) from the handler of MULTIPLY through the crossFunction callback, mergeObjects and applyAssignment no store reaches a node of the operands: every in-place assignment issued by the merge targets the fresh copy of the left operand; DeeplyAssign (decoders) likewise builds on a fresh root; (M2 = X2) the writable context created for the merge never evaluates a user sub-expression; (M3 = U1) the assignment primitive deep-copies, so the result shares no node with the right operand; (M5) the merge preferences always carry DontFollowAlias, so traversal of the copy never follows a merge key / alias into the anchored map of an operand. (M5) holds for every multiplyPreferences value built in the module; (M12) a traversal step from an alias node to its target is taken only under !DontFollowAlias (two known findings). Does NOT decide the merge value itself, flag combinations, nor the fold law.", runC04)
+	register("C16", "Decides structural necessary conditions of 'path, key and parent describe where a node is': (K1) AddChild gives every child Parent and a position key — finding: a child that already has a key keeps its old index (known); direct stores into a Content slot store positioned nodes (CopyAsReplacement / CreateReplacement results, permutations of existing children, or re-keyed in place); (K2) AddKeyValueChild re-keys and re-parents unconditionally, CopyAsReplacement takes Parent and Key from the node it replaces, and Copy shares nothing but Parent/Alias with the original (so re-keying one never rewrites the other); (K3) key / path / parent are computed from the recorded Key, Parent, IsMapKey only. K4 counts a node given Parent = owner before the list store as the owner's child. Does NOT decide traverse(path(n)) == n as a value fact.", runC16)
 }
 
 func runC02(c *Ctx) {
